@@ -153,6 +153,12 @@ def Fault.writeAt : Fault → Option Nat
   | .write k => some k
   | _ => Option.none
 
+/-- the chunks the callback and `Flush` try to write: a failing callback hands over only its first `j` pieces and
+    `Flush` is not reached -/
+def attempted (N : Nat) (pieces : List Bytes) : Fault → List Bytes
+  | .callback j => (feed N [] (pieces.take j)).1
+  | _ => chunks N pieces
+
 def Fault.isCallback : Fault → Bool
   | .callback _ => true
   | _ => false
@@ -161,10 +167,7 @@ def Fault.isCallback : Fault → Bool
 def writeFile (tmp dst : Path) (N mode : Nat) (pieces : List Bytes) (fault : Fault) : Res × List Act :=
   let fa := File.create tmp dst mode
   -- `writer(w)` then `w.Flush()`
-  let cs := match fault with
-    | .callback j => (feed N [] (pieces.take j)).1
-    | _ => chunks N pieces
-  let w := writeAll fa.1 cs fault.writeAt
+  let w := writeAll fa.1 (attempted N pieces fault) fault.writeAt
   if w.1 ≠ .ok ∨ fault.isCallback = true then
     -- `return` with err set; deferred `f.Close()`
     let c := fa.1.close false
@@ -195,17 +198,18 @@ def newFile (mode umask : Nat) (pieces : List Bytes) : FileData := ⟨pieces.fla
 
 /-! ## histories of the `safe.File` API -/
 
+/-- one call on a handle; the Booleans say whether the system call it would issue fails -/
 inductive Op
-  | write (c : Bytes)
-  | commit
-  | close
+  | write (c : Bytes) (fails : Bool)
+  | commit (closeFails renameFails : Bool)
+  | close (closeFails : Bool)
   | closeFd
 deriving DecidableEq, Repr
 
 def File.step (f : File) : Op → File × Res × List Act
-  | .write c => (f, f.write c false)
-  | .commit => f.commit false false
-  | .close => f.close false
+  | .write c fails => (f, f.write c fails)
+  | .commit a b => f.commit a b
+  | .close a => f.close a
   | .closeFd => f.closeFd
 
 /-- all actions of a history -/
@@ -215,5 +219,15 @@ def File.steps (f : File) : List Op → File × List Act
     let r := f.step o
     let r2 := r.1.steps os
     (r2.1, r.2.2 ++ r2.2)
+
+/-- what a history commits: `some p` when its first `Commit`/`Close` is a `Commit` that succeeds, `p` being the bytes
+    that reached the temporary file before it (`fdOpen`: the descriptor is still open — after a direct
+    `f.File.Close()` writes fail and so does `Commit`); `none` when the history commits nothing -/
+def committed (fdOpen : Bool) : List Op → Option Bytes
+  | [] => none
+  | .write c fails :: os => (committed fdOpen os).map ((if fdOpen && !fails then c else []) ++ ·)
+  | .closeFd :: os => committed false os
+  | .commit a b :: _ => if fdOpen && !a && !b then some [] else none
+  | .close _ :: _ => none
 
 end Safe
